@@ -133,7 +133,7 @@ class Ctx:
         self.pruner = None
         self.class_ids = {n: i + 1 for i, n in enumerate(sorted(repo.classes))}
         self.funs = []  # extra define-fun / declare-fun lines
-        self.funs_known = {"clsof", "hash_str", "flt_is_zero", "flt_of_int", "flt_eq", "dt_eq", "dt_iso", "dt_str", "flt_repr", "int_of_bool"}
+        self.funs_known = {"clsof", "hash_str", "flt_is_zero", "flt_of_int", "flt_eq", "dt_eq", "dt_iso", "dt_str", "flt_repr", "int_of_bool", "py_eq", "ck"}
 
     def fresh(self, prefix, ty):
         name = "%s!%d" % (prefix.replace(" ", "_"), next(self.counter))
